@@ -78,7 +78,7 @@ def main(argv: list[str]) -> int:
                 rp = core.write_replay(pid, rec)
                 lines.append(f"  {rec['clause']}@{rec['site']}: {rec['msg']}")
                 lines.append(f"VIOLATION property={pid} replay={rp}")
-        if ctx.evaluations < 1 or len(ctx.nontrivial) < 2:
+        if not unlisted and (ctx.evaluations < 1 or len(ctx.nontrivial) < 2):
             raise core.HarnessError(f"check explored nothing non-trivial: {ctx.evaluations} cases, "
                                     f"{len(ctx.nontrivial)} non-trivial")
         core.write_evidence(ctx, mod.LEVEL, mod.RULE, mod.ASSUMPTIONS,
